@@ -419,10 +419,33 @@ class List(list, base.Symbolic, pg_typing.CustomTyping):
       value = value.value
       # Same as `list.insert`: an index before the head inserts at the head.
       index = max(index, 0)
+      # Inserting MISSING_VALUE is considered no-op (same as appending it).
+      if pg_typing.MISSING_VALUE == value:
+        return None
       # An item of this list that is inserted again at its own position keeps
       # its slot (shifted by one), so the new slot must hold a copy.
       if isinstance(value, base.Symbolic) and value.sym_parent is self:
         value = value.clone()
+
+    # Setting an existing item to MISSING_VALUE deletes it.
+    # NOTE: the deletion takes place here rather than in `_on_change`, which is
+    # not triggered when notification is disabled or skipped.
+    if (not should_insert and index < len(self)
+        and pg_typing.MISSING_VALUE == value):
+      if self._value_spec and len(self) <= self._value_spec.min_size:
+        raise ValueError(
+            self._error_message(
+                f'Cannot delete item: min size ({self._value_spec.min_size}) '
+                f'is reached.'))
+      old_value = list.__getitem__(self, index)
+      list.__delitem__(self, index)
+      if isinstance(old_value, base.TopologyAware):
+        old_value.sym_setparent(None)
+      self._sync_children_paths(index)
+      return base.FieldUpdate(
+          self.sym_path + index, self,
+          self._value_spec.element if self._value_spec else None,
+          old_value, pg_typing.MISSING_VALUE)
 
     # The size limit applies to every way of growing the list (e.g.
     # `rebind` with an index beyond the end or with `pg.Insertion`).
